@@ -98,7 +98,7 @@ fn op_list(thorough: bool) -> Vec<SendOp> {
     let rl = ExternalReference::with_local_ext_bytes(Atom::new("p@h"), 2, vec![5, 6], vec![0u8, 0, 0, 0, 0, 0, 0, 1, 90, 0, 2, 119, 3, b'p', b'@', b'h', 0, 0, 0, 2, 0, 0, 0, 5, 0, 0, 0, 6]);
     for (i, p) in payloads.iter().enumerate() {
         ops.push(SendOp::Send { from: pid_plain(1), to: tos[i % tos.len()].clone(), msg: p.clone() });
-        ops.push(SendOp::RegSend { from: if i % 2 == 0 { pid_plain(2) } else { pid_local() }, name: ["rex", "", "ünïcödé", &"n".repeat(255)][i % 4].to_string(), msg: p.clone() });
+        ops.push(SendOp::RegSend { from: if i % 2 == 0 { pid_plain(2) } else { pid_local() }, name: ["rex", "", "ünïcödé", &"n".repeat(255), &"é".repeat(200), &"€".repeat(85)][i % 6].to_string(), msg: p.clone() });
     }
     for to in &tos {
         ops.push(SendOp::Link { from: pid_plain(3), to: to.clone() });
@@ -169,6 +169,59 @@ fn inputs_exec(dist_hdr: bool, thorough: bool, ctx: &WorkerCtx) -> ExecResult {
         cw.w.settle(&mut cw.peer, &no_probe).await;
         if cw.peer.log.len() != before { res.violations.push(("bytes written after close".into(), json!({"bytes": cw.peer.log.len() - before}))); }
         res.outcome = format!("mode={} frames={}", dist_hdr, seen_frames);
+        res
+    })
+}
+
+/// One Connection used for two sessions whose negotiated framing differs: connect, send, close,
+/// connect again with a peer that grants other capabilities; every frame must use the mode
+/// negotiated for the session it is sent in.
+fn reconnect_exec(first_hdr: bool, ctx: &WorkerCtx) -> ExecResult {
+    run_rt(async move {
+        let mut res = ExecResult::default();
+        let ours = flags_default() | DIST_HDR;
+        let peer1 = if first_hdr { flags_default() | DIST_HDR } else { flags_default() };
+        let peer2 = if first_hdr { flags_default() } else { flags_default() | DIST_HDR };
+        let mut cw = match conn_world(ctx, ours, peer1).await {
+            Ok(x) => x,
+            Err(e) => { res.violations.push(("could not establish the connection under a conforming peer".into(), json!({"error": e}))); return res; }
+        };
+        cw.w.gates.set_active(&[]);
+        let no_probe = || 0u64;
+        let ops: Vec<SendOp> = op_list(false).into_iter().step_by(7).take(8).collect();
+        let mut check_session = |peer: &mut Peer, hdr: bool, res: &mut ExecResult, label: &str, frames_from: usize| {
+            let (frames, rest) = peer.dist_frames();
+            let mut cache = RxCache::default();
+            if !rest.is_empty() { res.violations.push(("stray bytes after the frames of a session".into(), json!({"session": label}))); }
+            for (f, op) in frames.iter().skip(frames_from).zip(ops.iter()) {
+                match read_frame(f, hdr, &mut cache) {
+                    Ok(m) => if !same_msg(&m, &op.expected()) { res.violations.push(("frame content differs from the operation".into(), json!({"session": label, "operation": op.short()}))); },
+                    Err(e) => res.violations.push(("frame is not in the framing mode negotiated for this session".into(), json!({"session": label, "negotiated_header_mode": hdr, "operation": op.short(), "reader_error": e, "frame": vcore::report::hex(f)}))),
+                }
+            }
+            if frames.len() - frames_from != ops.len() { res.violations.push(("number of frames differs from the number of operations".into(), json!({"session": label, "frames": frames.len() - frames_from, "operations": ops.len()}))); }
+        };
+        for op in &ops { if let Err(e) = op.apply(&mut cw.conn).await { res.violations.push(("send failed in the first session".into(), json!({"error": e}))); } }
+        cw.w.settle(&mut cw.peer, &no_probe).await;
+        check_session(&mut cw.peer, first_hdr, &mut res, "first", 0);
+        let _ = cw.conn.close().await;
+        // second session on the same Connection
+        let mut conn = cw.conn;
+        let h = tokio::spawn(async move { let r = conn.connect().await; (conn, r) });
+        let Some(mut p2) = cw.w.accept_peer().await else { res.violations.push(("second connect never reached the peer".into(), json!({}))); return res; };
+        if let Err(e) = cw.w.peer_handshake(&mut p2, peer2).await { res.violations.push(("second handshake failed".into(), json!({"error": e}))); return res; }
+        let mut h = h;
+        for _ in 0..20_000 { cw.w.yield_once().await; if h.is_finished() { break; } }
+        if !h.is_finished() { res.violations.push(("second connect did not finish".into(), json!({}))); return res; }
+        let (mut conn, r) = (&mut h).await.unwrap();
+        if let Err(e) = r { res.violations.push(("second connect failed".into(), json!({"error": e.to_string()}))); return res; }
+        let hdr2 = conn.negotiated_flags().map(|f| f.as_u64() & DIST_HDR != 0).unwrap_or(false);
+        if hdr2 != !first_hdr { res.violations.push(("negotiated flags of the second session are not the intersection".into(), json!({"header_mode": hdr2}))); }
+        for op in &ops { if let Err(e) = op.apply(&mut conn).await { res.violations.push(("send failed in the second session".into(), json!({"error": e}))); } }
+        cw.w.settle(&mut p2, &no_probe).await;
+        check_session(&mut p2, !first_hdr, &mut res, "second", 0);
+        res.steps = 2 * ops.len() as u64;
+        res.outcome = format!("reconnect first_hdr={}", first_hdr);
         res
     })
 }
@@ -288,6 +341,8 @@ pub fn run(rep: &Report) -> Value {
     let st_inputs: Stats = for_all(rep, "operations x arguments x framing mode", &modes, |m, ctx| inputs_exec(*m, thorough, ctx));
     let kinds = [0usize, 1];
     let st_unc: Stats = for_all(rep, "operations before the handshake completed", &kinds, |k, ctx| unconnected_exec(*k, ctx));
+    let orders = [true, false];
+    let st_re: Stats = for_all(rep, "one Connection, two sessions with different negotiated framing", &orders, |o, ctx| reconnect_exec(*o, ctx));
     let n_ops = op_list(thorough).len();
     let mut conc = vec![];
     let plans: Vec<(usize, usize, usize)> = if thorough { vec![(2, 1, 3), (2, 2, 3), (3, 1, 3), (3, 2, 2)] } else { vec![(2, 1, 2), (2, 2, 2), (3, 1, 2)] };
@@ -296,8 +351,8 @@ pub fn run(rep: &Report) -> Value {
         let st = explore(rep, &name, b, std::time::Duration::from_secs(if thorough { 600 } else { 30 }), |ch, ctx| concurrent(ch, ctx, t, p));
         conc.push((name, st));
     }
-    let states = st_inputs.executions + st_unc.executions + conc.iter().map(|c| c.1.executions).sum::<u64>();
-    let transitions = st_inputs.transitions + st_unc.transitions + conc.iter().map(|c| c.1.transitions).sum::<u64>();
+    let states = st_inputs.executions + st_unc.executions + st_re.executions + conc.iter().map(|c| c.1.executions).sum::<u64>();
+    let transitions = st_inputs.transitions + st_unc.transitions + st_re.transitions + conc.iter().map(|c| c.1.transitions).sum::<u64>();
     let mut samples = vec![json!({"operation": op_list(false)[3].short()}), json!({"operation": op_list(false)[op_list(false).len() - 5].short()})];
     for c in &conc { samples.extend(c.1.samples.iter().take(1).cloned()); }
     json!({
@@ -309,6 +364,6 @@ pub fn run(rep: &Report) -> Value {
         "operations_per_mode": n_ops,
         "concurrent": conc.iter().map(|(n, s)| json!({"scenario": n, "executions": s.executions, "deviation_bound_completed": s.bound_completed, "distinct_outcomes": s.distinct_outcomes, "unstable_failures_not_reported": s.unstable, "max_decision_points": s.max_points})).collect::<Vec<_>>(),
         "distinct_outcomes": conc.iter().map(|c| c.1.distinct_outcomes).sum::<usize>(),
-        "rule": "(inputs) the six send-side operations x argument values (plain and node-local pids/references, names of 0/255 bytes and UTF-8, payloads from the boundary alphabet, unlink ids across 64 bits) in pass-through and distribution-header mode on a real Connection against a scripted peer: the peer's byte log is cut by an independent deframer and each frame read by an independent reader; operations on never-connected, refused and closed connections; (concurrency) 2-3 tasks x 1-2 Node::send/link/monitor through one node with gates before the connection lock, between the partial writes of a frame and after a frame, all schedules within the deviation bound",
+        "rule": "(inputs) the six send-side operations x argument values (plain and node-local pids/references, names of 0/255 bytes and UTF-8, payloads from the boundary alphabet, unlink ids across 64 bits) in pass-through and distribution-header mode on a real Connection against a scripted peer: the peer's byte log is cut by an independent deframer and each frame read by an independent reader; operations on never-connected, refused and closed connections; one Connection reused for a second session that negotiates the other framing mode (both directions); (concurrency) 2-3 tasks x 1-2 Node::send/link/monitor through one node with gates before the connection lock, between the partial writes of a frame and after a frame, all schedules within the deviation bound",
     })
 }
